@@ -45,6 +45,8 @@ pub struct BurstResult {
     pub violations: Vec<(String, String, Value)>, // clause, class, detail
     pub batches: Vec<usize>,
     pub failed_verify: u64,
+    /// fault mode: per signed batch (replies sharing one SREP value): (verified, failed)
+    pub fates: Vec<(u64, u64)>,
 }
 
 /// Run one burst against a (possibly long-running) server and judge every reply.
@@ -66,7 +68,8 @@ pub fn run_burst(srv: &mut Srv, b: &Burst, tagbase: u64, hist: &Value) -> Result
             return Err("client send failed".into());
         }
     }
-    let mut res = BurstResult { replies: 0, violations: vec![], batches: vec![], failed_verify: 0 };
+    let mut res = BurstResult { replies: 0, violations: vec![], batches: vec![], failed_verify: 0, fates: vec![] };
+    let mut fate_by_srep: BTreeMap<Vec<u8>, (u64, u64)> = BTreeMap::new();
     let fault = srv.cfg.fault > 0;
     if let Err(p) = srv.settle() {
         res.violations.push(("panic".into(), "process_events".into(), json!({"kind":"history","history":hist,"panic":p})));
@@ -87,7 +90,23 @@ pub fn run_burst(srv: &mut Srv, b: &Burst, tagbase: u64, hist: &Value) -> Result
             if from != srv.addr {
                 res.violations.push(("reply-from-wrong-address".into(), class.clone(), d(format!("{}", from), &reply)));
             }
-            match authentic(&reply, &reqs[i], v, Some(&lt_pk), SERVER_VIEW) {
+            let verdict = authentic(&reply, &reqs[i], v, Some(&lt_pk), SERVER_VIEW);
+            if fault {
+                // which signed batch the reply belongs to: its SREP value (left intact by both
+                // injected pathologies), read leniently (the tag order may be shuffled)
+                let payload: &[u8] = if reply.len() >= 12 && &reply[..8] == rtref::codec::FRAME_MAGIC { &reply[12..] } else { &reply[..] };
+                if let Some(f) = rtref::codec::decode_lenient(payload) {
+                    if let Some((_, srep)) = f.iter().find(|(t, _)| *t == rtref::codec::tag("SREP")) {
+                        let e = fate_by_srep.entry(srep.clone()).or_insert((0, 0));
+                        if verdict.is_ok() {
+                            e.0 += 1;
+                        } else {
+                            e.1 += 1;
+                        }
+                    }
+                }
+            }
+            match verdict {
                 Ok(info) => {
                     if reply.len() > reqs[i].len() {
                         // amplification is C07's concern; not judged here
@@ -104,6 +123,7 @@ pub fn run_burst(srv: &mut Srv, b: &Burst, tagbase: u64, hist: &Value) -> Result
             }
         }
     }
+    res.fates = fate_by_srep.into_values().collect();
     if !fault {
         for (_, g) in groups {
             let m = g.len();
@@ -291,6 +311,7 @@ pub fn run(ctx: &Ctx) -> Result<(), String> {
         let mut total = 0u64;
         let mut bad = 0u64;
         let mut round = 0u64;
+        let mut fates: Vec<(u64, u64)> = vec![];
         while (total as usize) < per_p {
             let b = Burst { mix: mixes(64)[(round % 4) as usize].clone(), size: 1024, srv: false };
             let hist = json!({"batch_size":64,"fault":p,"round":round});
@@ -298,6 +319,7 @@ pub fn run(ctx: &Ctx) -> Result<(), String> {
                 Ok(r) => {
                     total += r.replies;
                     bad += r.failed_verify;
+                    fates.extend(r.fates.iter().cloned());
                     for (clause, class, d) in r.violations {
                         ctx.violation(&clause, "reply-fault-mode", &class, d);
                     }
@@ -319,9 +341,26 @@ pub fn run(ctx: &Ctx) -> Result<(), String> {
         // a shuffled reply is still valid when the shuffle is the identity (1/720 of half the faults)
         let dev = (share - pf).abs();
         let ok = dev <= 6.0 * sigma + pf / 1000.0;
-        rate.lock().unwrap().push(json!({"p":p,"replies":total,"failed":bad,"share":share,"sigma":sigma,"within_6_sigma":ok}));
+        // "every reply either verifies or fails, the failing share is p": the decision is per reply.
+        // Were it taken once per signed batch, the replies of a batch would share one fate (up to the
+        // odd shuffled reply whose shuffle is the identity). With an independent p-decision per reply
+        // a batch of m replies is "almost uniform" (at most one reply of the rarer fate) with
+        // probability q_m = p^m + (1-p)^m + m p (1-p)^(m-1) + m (1-p) p^(m-1); seeing K of N such
+        // batches has probability <= C(N,K) q^K (q = the largest q_m among the batches counted).
+        let big: Vec<&(u64, u64)> = fates.iter().filter(|f| f.0 + f.1 >= 16).collect();
+        let q = big.iter().map(|f| { let m = (f.0 + f.1) as i32; let mf = m as f64; pf.powi(m) + (1.0 - pf).powi(m) + mf * pf * (1.0 - pf).powi(m - 1) + mf * (1.0 - pf) * pf.powi(m - 1) }).fold(0.0f64, f64::max);
+        let n_big = big.len();
+        let k_uniform = big.iter().filter(|f| f.0.min(f.1) <= 1).count();
+        let ln_choose = |n: usize, k: usize| -> f64 { (0..k).map(|i| ((n - i) as f64).ln() - ((i + 1) as f64).ln()).sum() };
+        let ln_bound = if q > 0.0 && q < 0.5 { ln_choose(n_big, k_uniform) + k_uniform as f64 * q.ln() } else { 0.0 };
+        rate.lock().unwrap().push(json!({"p":p,"replies":total,"failed":bad,"share":share,"sigma":sigma,"within_6_sigma":ok,"batches_of_16_or_more":n_big,"almost_uniform_batches":k_uniform,"q_almost_uniform_if_per_reply":q,"ln_probability_bound":ln_bound}));
         if !ok {
             ctx.violation("fault-rate", "grease", "rate", json!({"kind":"rate","p":p,"replies":total,"failed":bad,"sigma":sigma}));
+        }
+        if n_big >= 8 && k_uniform * 2 >= n_big && ln_bound < -46.0 {
+            // below 1e-20
+            ctx.violation("fault-decision-not-per-reply", "grease", "correlated-within-batch", json!({"kind":"rate","p":p,"replies":total,"failed":bad,"batches_of_16_or_more":n_big,"almost_uniform_batches":k_uniform,
+                "message":format!("{} of {} batches of 16 or more replies hold (almost) only one fate; with an independent {}% decision per reply that has probability below e^{:.0}", k_uniform, n_big, p, ln_bound)}));
         }
     });
     if let Some(e) = failed.lock().unwrap().take() {
